@@ -104,7 +104,25 @@ func NewGsfaWriter(
 func (a *GsfaWriter) fullBufferWriter() {
 	numReadFromChan := uint64(0)
 	howManyBuffersToFlushConcurrently := 256
-	tmpBuf := make(linkedlog.KeyToOffsetAndSizeAndBlocktimeSlice, howManyBuffersToFlushConcurrently)
+	// NOTE: length 0, capacity howManyBuffersToFlushConcurrently. (With a non-zero length the slice starts
+	// with that many empty buffers, `len(tmpBuf) == howManyBuffersToFlushConcurrently` is true only before
+	// the first append, and the parked buffers are never flushed unless the same key shows up again.)
+	tmpBuf := make(linkedlog.KeyToOffsetAndSizeAndBlocktimeSlice, 0, howManyBuffersToFlushConcurrently)
+
+	// flushTmpBuf writes the parked buffers to the linked log, oldest first, and empties tmpBuf.
+	flushTmpBuf := func() {
+		for _, buf := range tmpBuf {
+			if len(buf.Values) == 0 {
+				continue
+			}
+			// Write the buffer to the linked log.
+			klog.V(5).Infof("Flushing %d transactions for key %s", len(buf.Values), buf.Key)
+			if err := a.flushKVs(buf); err != nil {
+				klog.Errorf("Error while flushing transactions for key %s: %v", buf.Key, err)
+			}
+		}
+		tmpBuf = make(linkedlog.KeyToOffsetAndSizeAndBlocktimeSlice, 0, howManyBuffersToFlushConcurrently)
+	}
 
 	for {
 		// fmt.Println("numReadFromChan", numReadFromChan, "len(a.fullBufferWriterChan)", len(a.fullBufferWriterChan), "a.exiting.Load()", a.exiting.Load())
@@ -112,6 +130,8 @@ func (a *GsfaWriter) fullBufferWriter() {
 			klog.Infof("remaining %d buffers to flush", len(a.fullBufferWriterChan))
 		}
 		if a.exiting.Load() && len(a.fullBufferWriterChan) == 0 {
+			// Do not drop the buffers that are still parked: write them before exiting.
+			flushTmpBuf()
 			a.fullBufferWriterDone <- struct{}{}
 			return // exit
 		}
@@ -121,17 +141,7 @@ func (a *GsfaWriter) fullBufferWriter() {
 				numReadFromChan++
 				has := tmpBuf.Has(buffer.Key)
 				if len(tmpBuf) == howManyBuffersToFlushConcurrently || has {
-					for _, buf := range tmpBuf {
-						if len(buf.Values) == 0 {
-							continue
-						}
-						// Write the buffer to the linked log.
-						klog.V(5).Infof("Flushing %d transactions for key %s", len(buf.Values), buf.Key)
-						if err := a.flushKVs(buf); err != nil {
-							klog.Errorf("Error while flushing transactions for key %s: %v", buf.Key, err)
-						}
-					}
-					tmpBuf = make(linkedlog.KeyToOffsetAndSizeAndBlocktimeSlice, howManyBuffersToFlushConcurrently)
+					flushTmpBuf()
 				}
 				tmpBuf = append(tmpBuf, buffer)
 			}
